@@ -168,10 +168,11 @@ def _sing_of(f, u):
 
 
 class Jet:
-    __slots__ = ("v", "g", "H", "av", "ag", "aH", "isconst")
+    __slots__ = ("v", "g", "H", "av", "ag", "aH", "isconst", "lit")
 
     def __init__(self, v, g, H, av, ag, aH, isconst=False):
         self.v, self.g, self.H, self.av, self.ag, self.aH, self.isconst = v, g, H, av, ag, aH, isconst
+        self.lit = False  # True only for a literal constant leaf
 
 
 class JetSc:
@@ -209,10 +210,14 @@ class JetSc:
 
     def const(self, v):
         v = float(v)
-        return self._mk(v, self._zg, self._zH, abs(v), self._zg, self._zH, True)
+        j = self._mk(v, self._zg, self._zH, abs(v), self._zg, self._zH, True)
+        j.lit = True
+        return j
 
     def param(self, name):
-        return self.const(self.pvalues[name])
+        j = self.const(self.pvalues[name])
+        j.lit = False
+        return j
 
     def var(self, name):
         v = float(self.values[name])
@@ -282,6 +287,11 @@ class JetSc:
                 self._touch(abs(u))
             else:
                 self._touch(u)
+            if not b.lit:
+                # a constant exponent that is not a literal (parameter, constant sub-expression):
+                # the textbook general rule a^b (b' ln a + b a'/a) is 0*inf at a = 0 although the
+                # derivative exists there; that single point is left unjudged
+                self._touch(abs(u))
             try:
                 with np.errstate(all="ignore"):
                     fv = float(np.power(np.float64(u), np.float64(k)))
